@@ -1,6 +1,11 @@
+pub mod astwalk;
+pub mod corpus;
 pub mod evidence;
 pub mod front;
+pub mod mutate;
+pub mod pipeline;
 pub mod pool;
+pub mod toks;
 pub use heapmon::rng;
 pub mod trace;
 
